@@ -381,8 +381,22 @@ Definition store_value (t : token) (c : N) (id : N) (v : result) : M result :=
 Definition expect_holder_var (t : token) (c : N) (h : holder) : M N :=
   match h with HVar id => ret id | HArr _ => array_direct_error t c end.
 
-Fixpoint eval (fuel : nat) (n : node) (c : N) {struct fuel} : M result :=
-  match fuel with O => failm FFuel | S f =>
+(* the ten mutually recursive evaluation functions at one fuel level, as a record: each body below is
+   an ordinary (non-recursive) definition over the functions of the level beneath it *)
+Record evs := mkEvs {
+  ev_fuel : nat;                       (* the level: bounds the iterations of a loop at this level *)
+  ev_eval : node -> N -> M result;
+  ev_resolve : resolver -> N -> M holder;
+  ev_case_equals : result -> node -> N -> M bool;
+  ev_case_range : result -> node -> node -> N -> M bool;
+  ev_run_block : block -> N -> M unit;
+  ev_new_var : str -> dtype -> bool -> N -> M N;
+  ev_new_array : str -> dtype -> list dim -> N -> M N;
+  ev_bind_args : token -> list (str * dtype * bool) -> list node -> list result -> N -> N -> M unit;
+  ev_call_procedure : token -> str -> list node -> N -> M result;
+  ev_call_function : token -> list node -> N -> M result }.
+
+Definition eval_body (self : evs) (n : node) (c : N) : M result :=
   match n with
   | NInt t => ret (res_of KInt (PInt (digits_to_z (tval t))))
   | NReal t => match stod_literal (tval t) with
@@ -415,21 +429,21 @@ Fixpoint eval (fuel : nat) (n : node) (c : N) {struct fuel} : M result :=
     | _ => crash "arithmetic.cpp makeDate: stoul invalid_argument"
     end
   | NNeg t e =>
-    r <- eval f e c ;;
+    r <- ev_eval self e c ;;
     if dt_is (r_type r) KInt then z <- as_int r ;; ret (res_of KInt (PInt (wrap64 (z * -1))))
     else if dt_is (r_type r) KReal then x <- as_real r ;; ret (res_of KReal (PReal (rmul x (real_of_z (-1)))))
     else rt_error t c
   | NArith t l r =>
-    lr0 <- eval f l c ;; rr0 <- eval f r c ;; eval_arith t c lr0 rr0
+    lr0 <- ev_eval self l c ;; rr0 <- ev_eval self r c ;; eval_arith t c lr0 rr0
   | NCmp t l r =>
-    lr0 <- eval f l c ;; rr0 <- eval f r c ;; eval_cmp t c lr0 rr0
+    lr0 <- ev_eval self l c ;; rr0 <- ev_eval self r c ;; eval_cmp t c lr0 rr0
   | NLogic t l r =>
-    lr <- eval f l c ;;
+    lr <- ev_eval self l c ;;
     let is_and := tt_eqb (tt t) TAND in
     lfalse <- (if is_and && dt_is (r_type lr) KBool then b <- as_bool lr ;; ret (negb b) else ret false) ;;
     if lfalse then ret (res_of KBool (PBool false))
     else
-      rr <- eval f r c ;;
+      rr <- ev_eval self r c ;;
       if negb (dt_is (r_type lr) KBool) || negb (dt_is (r_type rr) KBool) then rt_error t c
       else a <- as_bool lr ;; b <- as_bool rr ;;
            match tt t with
@@ -438,11 +452,11 @@ Fixpoint eval (fuel : nat) (n : node) (c : N) {struct fuel} : M result :=
            | _ => crash "logic.cpp operator abort"
            end
   | NNot t e =>
-    r <- eval f e c ;;
+    r <- ev_eval self e c ;;
     if negb (dt_is (r_type r) KBool) then rt_error t c
     else b <- as_bool r ;; ret (res_of KBool (PBool (negb b)))
   | NCat t l r =>
-    lr <- eval f l c ;; rr <- eval f r c ;;
+    lr <- ev_eval self l c ;; rr <- ev_eval self r c ;;
     if dt_is (r_type lr) KNone || dt_is (r_type rr) KNone then rt_error t c else
     a <- as_payload lr ;; b <- as_payload rr ;;
     if negb (is_primitive a) || negb (is_primitive b) then rt_error t c else
@@ -450,7 +464,7 @@ Fixpoint eval (fuel : nat) (n : node) (c : N) {struct fuel} : M result :=
     check_strlen (slen sa + slen sb) t c ;;;
     ret (res_of KStr (PStr (sa ++ sb)))
   | NCast t e target =>
-    v <- eval f e c ;;
+    v <- ev_eval self e c ;;
     if dt_is (r_type v) KNone then rt_error t c else
     p <- as_payload v ;;
     if negb (is_primitive p) then rt_error t c
@@ -458,7 +472,7 @@ Fixpoint eval (fuel : nat) (n : node) (c : N) {struct fuel} : M result :=
     else if dt_is (r_type v) KDate && negb (dk_eqb target KInt) && negb (dk_eqb target KStr) then rt_error t c
     else p' <- cast_prim t c p target ;; ret (res_of target p')
   | NAccess t r =>
-    h <- catch_cls (x <- resolve f r c ;; ret (inl x)) is_not_defined
+    h <- catch_cls (x <- ev_resolve self r c ;; ret (inl x)) is_not_defined
                    (fun fl => en <- get_enum_element c (tval t) true ;;
                               match en with Some ti => ret (inr ti) | None => failm fl end) ;;
     match h with
@@ -474,17 +488,17 @@ Fixpoint eval (fuel : nat) (n : node) (c : N) {struct fuel} : M result :=
     (* 1. the value; an ArrayDirectAccessError raised in this context while evaluating an AccessNode
           turns the statement into an array assignment (any other node: the error propagates) *)
     vr <- (if (match e with NAccess _ _ => true | _ => false end)
-           then catch_cls (x <- eval f e c ;; ret (Some x)) (is_array_direct c) (fun _ => ret None)
-           else (x <- eval f e c ;; ret (Some x))) ;;
+           then catch_cls (x <- ev_eval self e c ;; ret (Some x)) (is_array_direct c) (fun _ => ret None)
+           else (x <- ev_eval self e c ;; ret (Some x))) ;;
     match vr with
     | None =>
       match e with
       | NAccess ta ra =>
-        src <- resolve f ra c ;;
+        src <- ev_resolve self ra c ;;
         match src with
         | HVar _ => crash "static_cast<Array*> on a variable"
         | HArr sid =>
-          dst <- resolve f r c ;;
+          dst <- ev_resolve self r c ;;
           match dst with
           | HVar _ => array_direct_error ta c
           | HArr did =>
@@ -500,20 +514,20 @@ Fixpoint eval (fuel : nat) (n : node) (c : N) {struct fuel} : M result :=
       if dt_is (r_type v) KNone then rt_error t c else
       id <- (match r with
              | RSimple tk =>
-               catch_cls (h <- resolve f r c ;; expect_holder_var t c h) is_not_defined
+               catch_cls (h <- ev_resolve self r c ;; expect_holder_var t c h) is_not_defined
                          (fun fl => ist <- is_identifier_type c tk true ;;
                                     if ist then failm fl
                                     else ped_guard pedantic t ;;;
-                                         nid <- new_var f (tval tk) (r_type v) false c ;;
+                                         nid <- ev_new_var self (tval tk) (r_type v) false c ;;
                                          add_var c (tval tk) nid ;;; ret nid)
-             | _ => h <- resolve f r c ;; expect_holder_var t c h
+             | _ => h <- ev_resolve self r c ;; expect_holder_var t c h
              end) ;;
       store_value t c id v
     end
   | NPtrAssign t pr vr =>
-    ph <- resolve f pr c ;;
+    ph <- ev_resolve self pr c ;;
     pid <- expect_holder_var t c ph ;;
-    vh <- resolve f vr c ;;
+    vh <- ev_resolve self vr c ;;
     match vh with
     | HArr _ => rt_error t c
     | HVar vid =>
@@ -532,8 +546,8 @@ Fixpoint eval (fuel : nat) (n : node) (c : N) {struct fuel} : M result :=
       | _ => crash "cell payload disagrees with its type"
       end
     end
-  | NFnCall t args => call_function f t args c
-  | NCall t name args => call_procedure f t name args c
+  | NFnCall t args => ev_call_function self t args c
+  | NCall t name args => ev_call_procedure self t name args c
   | NDeclare t ids ty =>
     iterM (fun id : token =>
              ex <- lookup_var c (tval id) false ;;
@@ -544,11 +558,11 @@ Fixpoint eval (fuel : nat) (n : node) (c : N) {struct fuel} : M result :=
                if ist then rt_error t c else
                dty <- get_type c ty true ;;
                if dt_is dty KNone then not_defined_error t c else
-               nid <- new_var f (tval id) dty false c ;;
+               nid <- ev_new_var self (tval id) dty false c ;;
                add_var c (tval id) nid
              end) ids ;;; ret res_none
   | NConst t v id =>
-    r <- eval f v c ;;
+    r <- ev_eval self v c ;;
     ex <- lookup_var c (tval id) false ;;
     match ex with
     | Some _ => rt_error t c
@@ -563,11 +577,11 @@ Fixpoint eval (fuel : nat) (n : node) (c : N) {struct fuel} : M result :=
     if Nat.eqb (List.length bounds) 0 || negb (Nat.even (List.length bounds)) then crash "array.cpp ArrayDeclareNode abort" else
     iterM (fun id : token => ex <- lookup_arr c (tval id) false ;;
                              match ex with Some _ => rt_error t c | None => ret Datatypes.tt end) ids ;;;
-    dims <- eval_bounds (fun x => eval f x c) c bounds 1 ;;
+    dims <- eval_bounds (fun x => ev_eval self x c) c bounds 1 ;;
     iterM (fun id : token =>
              dty <- get_type c ty true ;;
              if dt_is dty KNone then not_defined_error t c else
-             aid <- new_array f (tval id) dty dims c ;;
+             aid <- ev_new_array self (tval id) dty dims c ;;
              add_arr c (tval id) aid) ids ;;; ret res_none
   | NEnumDef t name vals =>
     ist <- is_identifier_type c name false ;;
@@ -584,38 +598,38 @@ Fixpoint eval (fuel : nat) (n : node) (c : N) {struct fuel} : M result :=
     if ist then rt_error t c
     else upd_ctx c (fun k => ctx_with_comps (x_comps k ++ [(tval name, body)]) k) ;;; ret res_none
   | NIf t comps =>
-    if_chain t c (map (if_comp (fun x => eval f x c) (fun b => run_block f b c)) comps)
+    if_chain t c (map (if_comp (fun x => ev_eval self x c) (fun b => ev_run_block self b c)) comps)
   | NCase t sel cases =>
-    v <- eval f sel c ;;
+    v <- ev_eval self sel c ;;
     case_chain (map (fun cc : casecomp =>
                        match cc with
-                       | COther b => (ret true, run_block f b c)
-                       | CEq b e => (case_equals f v e c, run_block f b c)
-                       | CRange b lo hi => (case_range f v lo hi c, run_block f b c)
+                       | COther b => (ret true, ev_run_block self b c)
+                       | CEq b e => (ev_case_equals self v e c, ev_run_block self b c)
+                       | CRange b lo hi => (ev_case_range self v lo hi c, ev_run_block self b c)
                        end) cases)
-  | NWhile t cond body => while_loop lim f t c (eval f cond c) (run_block f body c)
-  | NRepeat t cond body => repeat_loop lim f t c (eval f cond c) (run_block f body c)
+  | NWhile t cond body => while_loop lim (ev_fuel self) t c (ev_eval self cond c) (ev_run_block self body c)
+  | NRepeat t cond body => repeat_loop lim (ev_fuel self) t c (ev_eval self cond c) (ev_run_block self body c)
   | NFor t id start stop step body =>
     ex <- lookup_var c (tval id) true ;;
     it <- match ex with
           | Some i => ret i
-          | None => nid <- new_var f (tval id) (dt_prim KInt) false c ;; add_var c (tval id) nid ;;; ret nid
+          | None => nid <- ev_new_var self (tval id) (dt_prim KInt) false c ;; add_var c (tval id) nid ;;; ret nid
           end ;;
     icell <- get_cell it ;;
     if c_const icell then rt_error t c else
     if negb (dt_is (c_type icell) KInt) then rt_error t c else
-    sr <- eval f start c ;;
+    sr <- ev_eval self start c ;;
     if negb (dt_is (r_type sr) KInt) then rt_error t c else
-    er <- eval f stop c ;;
+    er <- ev_eval self stop c ;;
     if negb (dt_is (r_type er) KInt) then rt_error t c else
     stepv <- match step with
-             | Some se => r <- eval f se c ;;
+             | Some se => r <- ev_eval self se c ;;
                           if negb (dt_is (r_type r) KInt) then rt_error t c else as_int r
              | None => ret 1
              end ;;
     sv <- as_int sr ;; ev <- as_int er ;;
     set_cell_val it (PInt sv) ;;;
-    for_loop lim f t c it stepv ev (run_block f body c)
+    for_loop lim (ev_fuel self) t c it stepv ev (ev_run_block self body c)
   | NBreak t => failm (FBreak t)
   | NContinue t => failm (FContinue t)
   | NProc t name params body =>
@@ -645,24 +659,24 @@ Fixpoint eval (fuel : nat) (n : node) (c : N) {struct fuel} : M result :=
   | NReturn t e =>
     cx <- get_ctx c ;;
     if negb (x_isfun cx) then rt_error t c else
-    r <- eval f e c ;;
+    r <- ev_eval self e c ;;
     upd_ctx c (ctx_with_retval (Some r)) ;;;
     r' <- implicit_cast (x_rettype cx) r ;;
     upd_ctx c (ctx_with_retval (Some r')) ;;;
     if negb (dt_eq (r_type r') (x_rettype cx)) then rt_error t c else failm FReturn
   | NOutput t es =>
-    iterM (fun e : node => r <- eval f e c ;; output_item c (node_token e) r) es ;;;
+    iterM (fun e : node => r <- ev_eval self e c ;; output_item c (node_token e) r) es ;;;
     emit [ch_nl] ;;; ret res_none
   | NInput t r =>
     id <- (match r with
            | RSimple tk =>
-             catch_cls (h <- resolve f r c ;; expect_holder_var t c h) is_not_defined
+             catch_cls (h <- ev_resolve self r c ;; expect_holder_var t c h) is_not_defined
                        (fun fl => ist <- is_identifier_type c tk true ;;
                                   if ist then failm fl
                                   else ped_guard pedantic tk ;;;
-                                       nid <- new_var f (tval tk) (dt_prim KStr) false c ;;
+                                       nid <- ev_new_var self (tval tk) (dt_prim KStr) false c ;;
                                        add_var c (tval tk) nid ;;; ret nid)
-           | _ => h <- resolve f r c ;; expect_holder_var t c h
+           | _ => h <- ev_resolve self r c ;; expect_holder_var t c h
            end) ;;
     cl <- get_cell id ;;
     if c_const cl then rt_error t c else
@@ -677,7 +691,7 @@ Fixpoint eval (fuel : nat) (n : node) (c : N) {struct fuel} : M result :=
     | KNone => crash "io.cpp InputNode NONE abort"
     end
   | NOpenFile t fn mode =>
-    fr <- eval f fn c ;;
+    fr <- ev_eval self fn c ;;
     if negb (dt_is (r_type fr) KStr) then rt_error t c else
     name <- as_str fr ;;
     fl <- gets s_files ;;
@@ -686,7 +700,7 @@ Fixpoint eval (fuel : nat) (n : node) (c : N) {struct fuel} : M result :=
     | None => ok <- create_file name mode ;; if ok then ret res_none else rt_error t c
     end
   | NReadFile t fn id =>
-    fr <- eval f fn c ;;
+    fr <- ev_eval self fn c ;;
     if negb (dt_is (r_type fr) KStr) then rt_error t c else
     name <- as_str fr ;;
     fl <- gets s_files ;;
@@ -700,7 +714,7 @@ Fixpoint eval (fuel : nat) (n : node) (c : N) {struct fuel} : M result :=
                | Some i => cl <- get_cell i ;;
                            if negb (dt_is (c_type cl) KStr) then rt_error t c
                            else if c_const cl then rt_error t c else ret i
-               | None => nid <- new_var f (tval id) (dt_prim KStr) false c ;; add_var c (tval id) nid ;;; ret nid
+               | None => nid <- ev_new_var self (tval id) (dt_prim KStr) false c ;; add_var c (tval id) nid ;;; ret nid
                end ;;
         let '(line, fh') := file_read_line fh in
         update_file fh' ;;; set_cell_val vid (PStr line) ;;; ret res_none
@@ -708,7 +722,7 @@ Fixpoint eval (fuel : nat) (n : node) (c : N) {struct fuel} : M result :=
       end
     end
   | NWriteFile t fn d =>
-    fr <- eval f fn c ;;
+    fr <- ev_eval self fn c ;;
     if negb (dt_is (r_type fr) KStr) then rt_error t c else
     name <- as_str fr ;;
     fl <- gets s_files ;;
@@ -718,7 +732,7 @@ Fixpoint eval (fuel : nat) (n : node) (c : N) {struct fuel} : M result :=
       match of_mode fh with
       | FRead | FRandom => rt_error t c
       | _ =>
-        dr <- eval f d c ;;
+        dr <- ev_eval self d c ;;
         match dk (r_type dr) with
         | KNone | KEnum | KPtr | KRec => rt_error t c
         | _ => p <- as_payload dr ;; s <- prim_to_string p ;;
@@ -728,7 +742,7 @@ Fixpoint eval (fuel : nat) (n : node) (c : N) {struct fuel} : M result :=
       end
     end
   | NCloseFile t fn =>
-    fr <- eval f fn c ;;
+    fr <- ev_eval self fn c ;;
     if negb (dt_is (r_type fr) KStr) then rt_error t c else
     name <- as_str fr ;;
     fl <- gets s_files ;;
@@ -737,11 +751,11 @@ Fixpoint eval (fuel : nat) (n : node) (c : N) {struct fuel} : M result :=
     | Some fh => close_file_effect fh ;;; modify (fun s => set_files (remove_file name (s_files s)) s) ;;; ret res_none
     end
   | NSeek t fn a =>
-    ar <- eval f a c ;;
+    ar <- ev_eval self a c ;;
     if negb (dt_is (r_type ar) KInt) then rt_error t c else
     addr <- as_int ar ;;
     if addr <? 1 then rt_error t c else
-    fr <- eval f fn c ;;
+    fr <- ev_eval self fn c ;;
     if negb (dt_is (r_type fr) KStr) then rt_error t c else
     name <- as_str fr ;;
     fl <- gets s_files ;;
@@ -758,7 +772,7 @@ Fixpoint eval (fuel : nat) (n : node) (c : N) {struct fuel} : M result :=
       end
     end
   | NGetRecord t fn id =>
-    fr <- eval f fn c ;;
+    fr <- ev_eval self fn c ;;
     if negb (dt_is (r_type fr) KStr) then rt_error t c else
     name <- as_str fr ;;
     fl <- gets s_files ;;
@@ -799,7 +813,7 @@ Fixpoint eval (fuel : nat) (n : node) (c : N) {struct fuel} : M result :=
       end
     end
   | NPutRecord t fn id =>
-    fr <- eval f fn c ;;
+    fr <- ev_eval self fn c ;;
     if negb (dt_is (r_type fr) KStr) then rt_error t c else
     name <- as_str fr ;;
     fl <- gets s_files ;;
@@ -827,10 +841,9 @@ Fixpoint eval (fuel : nat) (n : node) (c : N) {struct fuel} : M result :=
       | _ => rt_error t c
       end
     end
-  end end
+  end.
 
-with resolve (fuel : nat) (r : resolver) (c : N) {struct fuel} : M holder :=
-  match fuel with O => failm FFuel | S f =>
+Definition resolve_body (self : evs) (r : resolver) (c : N) : M holder :=
   match r with
   | RSimple t =>
     v <- lookup_var c (tval t) true ;;
@@ -840,7 +853,7 @@ with resolve (fuel : nat) (r : resolver) (c : N) {struct fuel} : M holder :=
               match a with Some id => ret (HArr id) | None => not_defined_error t c end
     end
   | RDeref t r' =>
-    h <- resolve f r' c ;;
+    h <- ev_resolve self r' c ;;
     match h with
     | HArr _ => rt_error t c
     | HVar id =>
@@ -855,7 +868,7 @@ with resolve (fuel : nat) (r : resolver) (c : N) {struct fuel} : M holder :=
       end
     end
   | RField t r' m =>
-    h <- resolve f r' c ;;
+    h <- ev_resolve self r' c ;;
     match h with
     | HArr _ => rt_error t c
     | HVar id =>
@@ -873,23 +886,22 @@ with resolve (fuel : nat) (r : resolver) (c : N) {struct fuel} : M holder :=
       end
     end
   | RIndex t r' idx =>
-    h <- resolve f r' c ;;
+    h <- ev_resolve self r' c ;;
     match h with
     | HVar _ => rt_error t c
     | HArr aid =>
       a <- get_arr aid ;;
       if negb (Nat.eqb (List.length idx) (List.length (a_dims a))) then rt_error t c else
-      is <- eval_indices (fun x => eval f x c) c idx (a_dims a) ;;
+      is <- eval_indices (fun x => ev_eval self x c) c idx (a_dims a) ;;
       match nth_z (a_elems a) (linear is (a_dims a)) with
       | Some eid => ret (HVar eid)
       | None => crash "array.cpp getElement: index outside the element vector"
       end
     end
-  end end
+  end.
 
-with case_equals (fuel : nat) (v : result) (e : node) (c : N) {struct fuel} : M bool :=
-  match fuel with O => failm FFuel | S f =>
-    r <- eval f e c ;;
+Definition case_equals_body (self : evs) (v : result) (e : node) (c : N) : M bool :=
+    r <- ev_eval self e c ;;
     if dt_is (r_type v) KReal && dt_is (r_type r) KInt then a <- as_real v ;; b <- as_int r ;; ret (req a (real_of_z b))
     else if dt_is (r_type v) KInt && dt_is (r_type r) KReal then a <- as_int v ;; b <- as_real r ;; ret (req (real_of_z a) b)
     else if negb (dt_eq (r_type v) (r_type r)) then ret false
@@ -913,33 +925,30 @@ with case_equals (fuel : nat) (v : result) (e : node) (c : N) {struct fuel} : M 
       | KRec => ret false
       | KNone => crash "case.cpp EqualsCaseComponent abort"
       end
-  end
+  .
 
-with case_range (fuel : nat) (v : result) (lo hi : node) (c : N) {struct fuel} : M bool :=
-  match fuel with O => failm FFuel | S f =>
+Definition case_range_body (self : evs) (v : result) (lo hi : node) (c : N) : M bool :=
     if negb (is_numeric (r_type v)) then ret false else
     tv <- num_as_real v ;;
-    lr <- eval f lo c ;;
+    lr <- ev_eval self lo c ;;
     if negb (is_numeric (r_type lr)) then rt_error (node_token lo) c else
     lv <- num_as_real lr ;;
-    hr <- eval f hi c ;;
+    hr <- ev_eval self hi c ;;
     if negb (is_numeric (r_type hr)) then rt_error (node_token hi) c else
     hv <- num_as_real hr ;;
     ret (rle lv tv && rle tv hv)
-  end
+  .
 
 (* Block::run : _run or _runREPL *)
-with run_block (fuel : nat) (b : block) (c : N) {struct fuel} : M unit :=
-  match fuel with O => failm FFuel | S f =>
+Definition run_block_body (self : evs) (b : block) (c : N) : M unit :=
     iterM (fun n : node =>
              tick (node_token n) c ;;;
-             r <- eval f n c ;;
+             r <- ev_eval self n c ;;
              if repl then echo_result c r else ret Datatypes.tt) b
-  end
+  .
 
 (* new Variable(name, type, isConstant, ctx) with default initial data *)
-with new_var (fuel : nat) (name : str) (ty : dtype) (cst : bool) (owner : N) {struct fuel} : M N :=
-  match fuel with O => failm FFuel | S f =>
+Definition new_var_body (self : evs) (name : str) (ty : dtype) (cst : bool) (owner : N) : M N :=
     match default_prim ty with
     | Some p => id <- fresh ;; put_cell id (mkCell name ty cst owner p) ;;; ret id
     | None =>
@@ -951,29 +960,27 @@ with new_var (fuel : nat) (name : str) (ty : dtype) (cst : bool) (owner : N) {st
         match d with
         | None => crash "userType.cpp Composite::getDefinition null"
         | Some body =>
-          run_block f body rc ;;;
+          ev_run_block self body rc ;;;
           id <- fresh ;; put_cell id (mkCell name ty cst owner (PRec tn rc)) ;;; ret id
         end
       | KNone, _ => crash "variable.cpp Variable NONE abort"
       | _, _ => crash "variable.cpp: user type without a name"
       end
     end
-  end
+  .
 
 (* Array(name, type, dims) + init(ctx) *)
-with new_array (fuel : nat) (name : str) (ty : dtype) (dims : list dim) (owner : N) {struct fuel} : M N :=
-  match fuel with O => failm FFuel | S f =>
+Definition new_array_body (self : evs) (name : str) (ty : dtype) (dims : list dim) (owner : N) : M N :=
     let n := total_size dims in
     alloc_cells n owner ;;;
-    elems <- repeatM (Z.to_nat n) (new_var f name ty false owner) ;;
+    elems <- repeatM (Z.to_nat n) (ev_new_var self name ty false owner) ;;
     aid <- fresh ;;
     put_arr aid (mkArr name ty dims elems) ;;; ret aid
-  end
+  .
 
 (* binding of arguments to parameters, shared by CallNode and FunctionCallNode *)
-with bind_args (fuel : nat) (t : token) (params : list (str * dtype * bool)) (args : list node)
-               (vals : list result) (c fc : N) {struct fuel} : M unit :=
-  match fuel with O => failm FFuel | S f =>
+Definition bind_args_body (self : evs) (t : token) (params : list (str * dtype * bool)) (args : list node)
+               (vals : list result) (c fc : N) : M unit :=
     match params, args, vals with
     | [], _, _ => ret Datatypes.tt
     | (pn, pty, byref) :: pr, a :: ar, v :: vr =>
@@ -982,47 +989,45 @@ with bind_args (fuel : nat) (t : token) (params : list (str * dtype * bool)) (ar
       (if byref then
          match a with
          | NAccess _ rs =>
-           h <- resolve f rs c ;;
+           h <- ev_resolve self rs c ;;
            id <- expect_holder_var t c h ;;
            add_var fc pn id
          | _ => rt_error t c
          end
        else
-         id <- new_var f pn (r_type v') false fc ;;
+         id <- ev_new_var self pn (r_type v') false fc ;;
          assign_val hfuel id v' ;;;
          add_var fc pn id) ;;;
-      bind_args f t pr ar vr c fc
+      ev_bind_args self t pr ar vr c fc
     | _, _, _ => crash "call: argument vectors of different length"
     end
-  end
+  .
 
-with call_procedure (fuel : nat) (t : token) (name : str) (args : list node) (c : N) {struct fuel} : M result :=
-  match fuel with O => failm FFuel | S f =>
+Definition call_procedure_body (self : evs) (t : token) (name : str) (args : list node) (c : N) : M result :=
     ps <- gets s_procs ;;
     match assoc_str name ps with
     | None => not_defined_error t c
     | Some pd =>
-      vals <- mapM (fun a : node => eval f a c) args ;;
+      vals <- mapM (fun a : node => ev_eval self a c) args ;;
       if negb (Nat.eqb (List.length args) (List.length (pd_params pd))) then rt_error t c else
       pc <- new_ctx (Some c) name false false dt_none ;;
-      bind_args f t (pd_params pd) args vals c pc ;;;
+      ev_bind_args self t (pd_params pd) args vals c pc ;;;
       upd_ctx c (ctx_with_switch (Some (tline t, tcol t))) ;;;
       d <- gets s_depth ;;
       (if (0 <? max_depth lim) && (max_depth lim <? d + 1) then budget_error t c else ret Datatypes.tt) ;;;
       modify (set_depth (d + 1)) ;;;
-      call_body d pc false (run_block f (pd_body pd) pc) ;;;
+      call_body d pc false (ev_run_block self (pd_body pd) pc) ;;;
       upd_ctx c (ctx_with_switch None) ;;; ret res_none
     end
-  end
+  .
 
-with call_function (fuel : nat) (t : token) (args : list node) (c : N) {struct fuel} : M result :=
-  match fuel with O => failm FFuel | S f =>
+Definition call_function_body (self : evs) (t : token) (args : list node) (c : N) : M result :=
     let name := tval t in
     fs <- gets s_funcs ;;
     match builtin_sig name, assoc_str name fs with
     | None, None => not_defined_error t c
     | Some (pkinds, rk), _ =>
-      vals <- mapM (fun a : node => eval f a c) args ;;
+      vals <- mapM (fun a : node => ev_eval self a c) args ;;
       if negb (Nat.eqb (List.length args) (List.length pkinds)) then rt_error t c else
       fc <- new_ctx (Some c) name true false (dt_prim rk) ;;
       ps <- builtin_args t c pkinds vals ;;
@@ -1032,21 +1037,38 @@ with call_function (fuel : nat) (t : token) (args : list node) (c : N) {struct f
       r <- run_builtin name fc ps ;;
       upd_ctx c (ctx_with_switch None) ;;; ret r
     | None, Some fd =>
-      vals <- mapM (fun a : node => eval f a c) args ;;
+      vals <- mapM (fun a : node => ev_eval self a c) args ;;
       if negb (Nat.eqb (List.length args) (List.length (fd_params fd))) then rt_error t c else
       fc <- new_ctx (Some c) name true false (fd_ret fd) ;;
-      bind_args f t (fd_params fd) args vals c fc ;;;
+      ev_bind_args self t (fd_params fd) args vals c fc ;;;
       upd_ctx c (ctx_with_switch (Some (tline t, tcol t))) ;;;
       d <- gets s_depth ;;
       (if (0 <? max_depth lim) && (max_depth lim <? d + 1) then budget_error t c else ret Datatypes.tt) ;;;
       modify (set_depth (d + 1)) ;;;
-      call_body d fc true (run_block f (fd_body fd) fc) ;;;
+      call_body d fc true (ev_run_block self (fd_body fd) fc) ;;;
       fx <- get_ctx fc ;;
       match x_retval fx with
       | None => rt_error (fd_tok fd) fc
       | Some r => upd_ctx c (ctx_with_switch None) ;;; ret r
       end
     end
-  end.
+  .
+
+(* tying the knot on fuel *)
+Definition evs_zero : evs :=
+  mkEvs O (fun _ _ => failm FFuel) (fun _ _ => failm FFuel) (fun _ _ _ => failm FFuel) (fun _ _ _ _ => failm FFuel)
+        (fun _ _ => failm FFuel) (fun _ _ _ _ => failm FFuel) (fun _ _ _ _ => failm FFuel) (fun _ _ _ _ _ _ => failm FFuel)
+        (fun _ _ _ _ => failm FFuel) (fun _ _ _ => failm FFuel).
+Definition evs_step (self : evs) : evs :=
+  mkEvs (S (ev_fuel self)) (eval_body self) (resolve_body self) (case_equals_body self) (case_range_body self) (run_block_body self)
+        (new_var_body self) (new_array_body self) (bind_args_body self) (call_procedure_body self) (call_function_body self).
+Fixpoint evs_at (fuel : nat) : evs :=
+  match fuel with O => evs_zero | S f => evs_step (evs_at f) end.
+
+Definition eval (fuel : nat) := ev_eval (evs_at fuel).
+Definition resolve (fuel : nat) := ev_resolve (evs_at fuel).
+Definition run_block (fuel : nat) := ev_run_block (evs_at fuel).
+Definition call_function (fuel : nat) := ev_call_function (evs_at fuel).
+Definition call_procedure (fuel : nat) := ev_call_procedure (evs_at fuel).
 
 End Eval.
